@@ -4,6 +4,8 @@
      E S <fam> | E C <fam> <upath> | E D <fam> | E B <fam> | E O <0|1> <path> | E R <src> <dst> | E U <path> | E M <path>
                                                  -> verdict of Effects.judge under the current configuration: 0 ok, 1 net, 2 resolve, 3 write
      L <bytes>                                   -> 1 if Effects.loopback_bytes accepts the literal, else 0
+     F <filedir> <file path of the URL | N>      -> EffectsSave.file_dict_plan: "-" (nothing written) or "O<open> R<src>:<dst>"
+     U <userDictPath>                            -> EffectsSave.user_dict_plan, same format
    Self-contained (does not use conv_*.ml: the extracted model defines its own type named `string`). *)
 let rec pos_of_int n = if n <= 1 then XH else if n land 1 = 0 then XO (pos_of_int (n lsr 1)) else XI (pos_of_int (n lsr 1))
 let n_of_int n = if n <= 0 then N0 else Npos (pos_of_int n)
@@ -13,6 +15,10 @@ let unhex s =
   if s = "-" then [] else
   let n = Stdlib.String.length s / 2 in
   List.init n (fun i -> n_of_int (int_of_string ("0x" ^ Stdlib.String.sub s (2 * i) 2)))
+let hex l = if l = [] then "-" else Stdlib.String.concat "" (List.map (fun n -> Printf.sprintf "%02x" (int_of_n n)) l)
+let plan_line = function
+  | None -> "-"
+  | Some ((o, s), d) -> Printf.sprintf "O%s R%s:%s" (hex o) (hex s) (hex d)
 let words l = List.filter (fun w -> w <> "") (Stdlib.String.split_on_char ' ' l)
 let cfg = ref { m_user = []; m_filedir = []; m_stats = []; m_own = [] }
 let judge e = print_endline (string_of_int (int_of_n (run_judge !cfg e)))
@@ -34,6 +40,9 @@ let () =
        | ["E"; "R"; a; b] -> judge (EvRename (unhex a, unhex b))
        | ["E"; "U"; p] -> judge (EvUnlink (unhex p))
        | ["E"; "M"; p] -> judge (EvMkdir (unhex p))
+       | ["F"; d; "N"] -> print_endline (plan_line (file_dict_plan (unhex d) None))
+       | ["F"; d; p] -> print_endline (plan_line (file_dict_plan (unhex d) (Some (unhex p))))
+       | ["U"; u] -> print_endline (plan_line (Some (user_dict_plan (unhex u))))
        | ["L"; b] -> print_endline (if loopback_bytes (unhex b) then "1" else "0")
        | _ -> print_endline "?");
       loop ()
